@@ -65,7 +65,7 @@ impl GenCfg {
     pub fn programs(exact_only: bool) -> GenCfg {
         use Kind::*;
         GenCfg {
-            kinds: vec![(Binary, 30), (Unary, 18), (Leaf, 8), (SumReshape, 8), (Matmul, 8), (Rebind, 6), (Custom, 6), (CloneH, 3), (Conv, 4), (IfGt, 5), (DropH, 2)],
+            kinds: vec![(Binary, 30), (Unary, 18), (Leaf, 8), (SumReshape, 8), (Matmul, 8), (Rebind, 6), (Custom, 6), (CloneH, 3), (Conv, 4), (IfGt, 5), (Flag, 4), (DropH, 2)],
             max_rank: 3,
             max_size: 3,
             max_elems: 64,
@@ -73,7 +73,7 @@ impl GenCfg {
             exact_only,
             tracked_pct: 75,
             final_backward: true,
-            flag_results: false,
+            flag_results: true,
             dir_budget: 4096,
             max_abs: 1e4,
             grad_operands: true,
@@ -97,7 +97,7 @@ fn pick<X: Clone>(sel: u8, list: &[X]) -> X {
     list[(sel as usize * list.len()) >> 8].clone()
 }
 
-const SCALES: [f64; 8] = [2.0, -1.0, 0.5, 3.0, -0.25, 1.5, -2.0, 0.125];
+const SCALES: [f64; 10] = [2.0, -1.0, 0.5, 1.0, 3.0, -0.25, 0.0, 1.5, -2.0, 0.125];
 const EXPONENTS: [f64; 10] = [2.0, 3.0, 1.0, 0.5, -1.0, 1.5, -0.5, 0.0, -2.0, 4.0];
 
 impl<'a> El<'a> {
@@ -191,12 +191,12 @@ impl<'a> El<'a> {
 
     fn unary_op(&self, i: &Instr, h: usize) -> OpKind {
         use OpKind::*;
-        let exact: [OpKind; 6] = [Neg, ScaleR(pick(i[4], &SCALES)), Relu, ScaleL(pick(i[4], &SCALES)), Powf(2.0), Powf(3.0)];
+        let exact: [OpKind; 7] = [Neg, ScaleR(pick(i[4], &SCALES)), Relu, ScaleL(pick(i[4], &SCALES)), Powf(2.0), Powf(3.0), ActRelu];
         if self.cfg.exact_only {
             return pick(i[2], &exact).clone();
         }
         let e = if i[5] >= 200 { ((i[4] as f64) / 32.0 - 3.0) * 1.0 } else { pick(i[4], &EXPONENTS) };
-        let all: [OpKind; 12] = [Neg, ScaleR(pick(i[4], &SCALES)), Relu, Sigmoid, Exp, Ln, Powf(e), Recip, Softmax, ScaleL(pick(i[4], &SCALES)), Powf(2.0), Sigmoid];
+        let all: [OpKind; 15] = [Neg, ScaleR(pick(i[4], &SCALES)), Relu, Sigmoid, Exp, Ln, Powf(e), Recip, Softmax, ScaleL(pick(i[4], &SCALES)), Powf(2.0), Sigmoid, ActRelu, ActSigmoid, ActSoftmax];
         let _ = h;
         pick(i[2], &all).clone()
     }
@@ -263,6 +263,12 @@ impl<'a> El<'a> {
                     let b = pick(i[2], &cands);
                     return self.apply(op, vec![a, b]);
                 }
+            }
+        }
+        // the dot product of two vectors
+        if ad.len() == 1 && i[3] % 3 == 0 {
+            if let Some(b) = self.new_leaf(vec![ad[0]], i, None) {
+                return self.apply(OpKind::Matmul { ta: false, tb: false, has_c: false }, vec![a, b]);
             }
         }
         // synthesise b (and maybe an additive term)
